@@ -1,4 +1,5 @@
-SPECIFICATION Spec
+INIT MCInit
+NEXT MCNext
 CONSTANTS
   Themes = {"foo3", "pango3", "meta3"}
   ML = 3
@@ -6,10 +7,11 @@ CONSTANTS
   EML = 2
   EMW = 2
   LaML = 0
+  Extras = FALSE
   Variant = "asis"
   Gran = "case"
-  Cases <- MC_Cases
-  LaCases <- MC_LaCases
+  Cases <- MC_None
+  LaCases <- MC_None
 CHECK_DEADLOCK FALSE
 ALIAS Alias
 INVARIANT TypeOK
